@@ -1,0 +1,6 @@
+//go:build !verif
+// +build !verif
+
+package masswallet
+
+func verifGate(h *NtfnsHandler, point string) {}
